@@ -55,7 +55,26 @@ impl ResolvedCalendarFields {
             });
         }
 
-        let month_code = MonthCode::try_from_partial_date(partial_date)?;
+        // `month` is the ordinal position of the month in its year. In a year with
+        // a leap month that is not the number inside the month code, so the code
+        // has to be looked up in the year that was just resolved.
+        let month_code = match (partial_date.month, partial_date.month_code) {
+            (Some(month), None) => partial_date
+                .calendar
+                .month_code_from_ordinal(&era_year, month)?,
+            (Some(month), Some(month_code)) => {
+                month_code.validate(&partial_date.calendar)?;
+                let resolved = partial_date
+                    .calendar
+                    .month_code_from_ordinal(&era_year, month)?;
+                if resolved != month_code {
+                    return Err(TemporalError::range()
+                        .with_message("Month and monthCode values could not be resolved."));
+                }
+                month_code
+            }
+            _ => MonthCode::try_from_partial_date(partial_date)?,
+        };
         let day = resolve_day(partial_date.day, resolve_type == ResolutionType::YearMonth)?;
         // TODO: Constrain day to calendar range for month?
 
@@ -276,6 +295,18 @@ impl core::str::FromStr for MonthCode {
     fn from_str(s: &str) -> Result<Self, Self::Err> {
         Self::try_from_utf8(s.as_bytes())
     }
+}
+
+/// The month code with the given number, optionally as a leap month (`MnnL`).
+pub(crate) fn month_code_from_parts(number: u8, leap: bool) -> TemporalResult<MonthCode> {
+    let code = month_to_month_code(number)?;
+    if !leap {
+        return Ok(code);
+    }
+    let bytes = code.0.all_bytes();
+    let tinystr = TinyAsciiStr::<4>::try_from_raw([bytes[0], bytes[1], bytes[2], b'L'])
+        .map_err(|e| TemporalError::range().with_message(format!("tinystr error {e}")))?;
+    Ok(MonthCode(tinystr))
 }
 
 // NOTE: This is a greedy function, should handle differently for all calendars.
